@@ -218,9 +218,29 @@ def c09_runs(tier, hb=0):
     return r
 
 
+def c10_runs(tier, hb=0):
+    q = tier == 'quick'
+    cv = ['signal.handler-ran', 'signal.quiescent', 'signal.exclusive-woken', 'signal.fan-out-to-several',
+          'signal.this-thread-interest-preferred', 'signal.unregister-self-in-handler']
+    h = 'harness/signal.c'
+    r = [mt_run('one-thread.I2', h, cv, preempt=2 if q else 3, I=2, T=1, D=2, hb=hb),
+         mt_run('one-thread.I2.rev.poll', h, cv, preempt=2, I=2, T=1, D=2, rev=1, poll=1, hb=hb),
+         mt_run('one-thread.I3', h, cv, preempt=1 if q else 2, I=3, T=1, D=2, ops=2, hb=hb),
+         mt_run('two-threads', h, cv + ['signal.loop-returned-after-last-unregister'], preempt=2, I=2, T=2,
+                D=2 if q else 3, hb=hb),
+         mt_run('handoff', h, ['signal.exclusive-handoff', 'signal.handler-ran'], preempt=1 if q else 2, I=3, T=1, D=2,
+                ops=1, twosigs=1, nflags=2, order=1, hb=hb),
+         mt_run('fork-child', h, ['signal.child-does-not-trigger-parent', 'env.fork-child-copy-explored'], preempt=1,
+                I=2, T=1, D=1, forkchild=1, hb=hb)]
+    if not q:
+        r.append(mt_run('two-threads.I3', h, cv, preempt=2, I=3, T=2, D=2, hb=hb))
+    return r
+
+
 def c14_runs(tier):
     r = []
-    for x in c08_runs(tier, hb=1) + c09_runs(tier, hb=1):
+    sig = [x for x in c10_runs(tier, hb=1) if x['name'] in ('two-threads', 'one-thread.I2')]
+    for x in c08_runs(tier, hb=1) + c09_runs(tier, hb=1) + sig:
         x = dict(x)
         x['name'] = 'race.' + x['name']
         r.append(x)
@@ -333,10 +353,27 @@ CHECKS = {
             'outside': 'signal delivery between two instructions that are not system-call boundaries (the post is a '
                        'single write; nothing else is shared); a real forked child',
             'assumptions': ENV_ASSUMPTIONS},
+    'C10': {'runs': c10_runs,
+            'explanation': 'C10: interests with forked flags (exclusive / this-thread) in one or two loop threads; a '
+                           'sender thread signals the process or a chosen thread at forked points; handlers unregister '
+                           'themselves or siblings; the expected set of each delivery is computed over the harness\'s '
+                           'ghost set when the library\'s signal handler is entered (this-thread interests of the '
+                           'receiving thread first, else process-wide; first exclusive in the library\'s documented '
+                           'order, else all non-exclusive); oracles: expected handlers run in their registering thread '
+                           '(checked at quiescence), no interest runs more often than deliveries/hand-offs named it, '
+                           'required hand-off from an unregistered exclusive interest, disposition restored, child '
+                           'copy after fork() wakes nothing.',
+            'bounds': {'quick': '2-3 interests, 1-2 loop threads, 2 deliveries, 1-2 unregistrations from handlers, '
+                                'preemption bound 1-2', 'thorough': '3 deliveries, bound 2-3, 3 interests over 2 threads'},
+            'outside': 'delivery between two instructions that are not system-call boundaries or waits; the harness '
+                       'serialises its ghost-set update with deliveries (every real execution orders the library\'s '
+                       'locked tree walk before or after the update); hand-off across sets (this-thread -> process-wide) '
+                       'is not required by the oracle (reading of the property: next interest of the same set)',
+            'assumptions': ENV_ASSUMPTIONS},
     'C14': {'runs': c14_runs,
             'explanation': 'C14: happens-before (vector clock) race monitor over every load/store that library code '
                            'performs on globals and heap during the multi-threaded scenario programs of C08/C09 '
-                           '(C12/C13 scenarios are added when built); sync edges: mutex/spin unlock->lock, '
+                           'and the two-thread signal scenario of C10 (C12/C13 scenarios are added when built); sync edges: mutex/spin unlock->lock, '
                            'thread create/join, write->read on pipes/eventfds, epoll_ctl->epoll_wait. The verdict on '
                            'a path is independent of the timing actually observed.',
             'bounds': {'quick': 'the quick scenario programs of C08 and C09', 'thorough': 'their thorough versions'},
